@@ -19,7 +19,7 @@ import (
 // nativeMITM drives the MITM scenario over a real in-memory connection with
 // the real crypto/tls and a real authority (native replay only). It returns the
 // responses the client read: the CONNECT answer first, then those of the tunnel.
-func nativeMITM(p *Proxy, connect, inner []byte, n int) []gotRes {
+func zznativeMITM(p *Proxy, connect, inner []byte, n int) []zzgotRes {
 	ca, priv, err := mitm.NewAuthority("verif", "verif", time.Hour)
 	if err != nil {
 		panic(err)
@@ -30,7 +30,7 @@ func nativeMITM(p *Proxy, connect, inner []byte, n int) []gotRes {
 	}
 	p.SetMITM(mc)
 	cc, pc := net.Pipe()
-	var got []gotRes
+	var got []zzgotRes
 	done := make(chan struct{})
 	go func() {
 		defer close(done)
@@ -42,7 +42,7 @@ func nativeMITM(p *Proxy, connect, inner []byte, n int) []gotRes {
 		if err != nil {
 			return
 		}
-		got = append(got, gotRes{status: res.StatusCode, header: res.Header, ok: true})
+		got = append(got, zzgotRes{status: res.StatusCode, header: res.Header, ok: true})
 		if res.StatusCode != 200 {
 			return
 		}
@@ -58,10 +58,10 @@ func nativeMITM(p *Proxy, connect, inner []byte, n int) []gotRes {
 				return
 			}
 			body, berr := ioutil.ReadAll(res.Body)
-			got = append(got, gotRes{status: res.StatusCode, header: res.Header, body: body, close: res.Close, ok: berr == nil})
+			got = append(got, zzgotRes{status: res.StatusCode, header: res.Header, body: body, close: res.Close, ok: berr == nil})
 		}
 	}()
-	serveConn(p, pc)
+	zzserveConn(p, pc)
 	<-done
 	return got
 }
@@ -83,30 +83,30 @@ func VerifC02MITM() {
 		}
 	}
 	connect := []byte("CONNECT example.com:443 HTTP/1.1\r\nHost: example.com:443\r\n\r\n")
-	o := &origin{}
+	o := &zzorigin{}
 	o.answer = func(i int, req *http.Request) (*http.Response, error) {
-		return rawResponse(resSpec{status: 201, hval: "o", body: []byte("ok")}.wire(), req)
+		return zzrawResponse(zzresSpec{status: 201, hval: "o", body: []byte("ok")}.wire(), req)
 	}
 	o.wraps = vf.Choice("round-tripper-works-on-a-copy-of-the-request", 2) == 1
-	m := &recorder{behave: behave, o: o, hijackedAt: -1}
+	m := &zzrecorder{behave: behave, o: o, hijackedAt: -1}
 	p := NewProxy()
 	p.SetRoundTripper(o)
 	p.SetRequestModifier(m)
 	p.SetResponseModifier(m)
-	var got []gotRes
+	var got []zzgotRes
 	if vf.Symbolic() {
 		p.SetMITM(new(mitm.Config))
-		conn := newClientConn("client", true, connect, append([]byte{0x16, 0x01}, inner.Bytes()...))
-		serveConn(p, conn)
+		conn := zznewClientConn("client", true, connect, append([]byte{0x16, 0x01}, inner.Bytes()...))
+		zzserveConn(p, conn)
 		out := conn.out.Bytes()
 		if k := bytes.Index(out, []byte{0x16, 0x02}); k >= 0 { // the model's server hello
-			got = append(clientView(out[:k], []string{"CONNECT"}), clientView(out[k+2:], ms)...)
+			got = append(zzclientView(out[:k], []string{"CONNECT"}), zzclientView(out[k+2:], ms)...)
 		} else {
-			got = clientView(out, []string{"CONNECT"})
+			got = zzclientView(out, []string{"CONNECT"})
 		}
 		vf.Assert(conn.closed >= 1, "connection-closed-at-the-end")
 	} else {
-		got = nativeMITM(p, connect, inner.Bytes(), n)
+		got = zznativeMITM(p, connect, inner.Bytes(), n)
 	}
 
 	vf.Assert(len(m.recs) == 1+n, "request-modifier-runs-for-the-connect-and-every-decrypted-request")
@@ -119,7 +119,7 @@ func VerifC02MITM() {
 	for i, r := range m.recs {
 		vf.Assert(r.reqCalls == 1, "request-modifier-exactly-once")
 		vf.Assert(r.originAtReq == origins, "request-modifier-before-any-upstream-contact")
-		if i > 0 && behave[i] != bSkip {
+		if i > 0 && behave[i] != zzbSkip {
 			origins++
 		}
 		vf.Assert(r.resCalls == 1, "response-modifier-exactly-once")
@@ -135,18 +135,18 @@ func VerifC02MITM() {
 		vf.Assert(r.reqCtx.Session() == session, "session-shared-by-all-exchanges-of-the-connection")
 	}
 	vf.Assert(len(o.seen) == origins, "upstream-contact-only-when-expected")
-	vf.Assert(liveContexts() == 0, "no-context-retrievable-after-the-exchange")
+	vf.Assert(zzliveContexts() == 0, "no-context-retrievable-after-the-exchange")
 	vf.Assert(len(got) == 1+n, "one-response-per-exchange")
 	for i := 0; i < len(got) && i <= n; i++ {
 		switch {
 		case i == 0:
 			vf.Assert(got[i].status == 200, "connect-200")
-		case behave[i] == bSkip:
+		case behave[i] == zzbSkip:
 			vf.Assert(got[i].status == 200, "skipped-round-trip-answers-200")
 		default:
 			vf.Assert(got[i].status == 201, "origin-response-delivered")
 		}
-		if behave[i] == bError {
+		if behave[i] == zzbError {
 			vf.Assert(len(got[i].header["Warning"]) >= 1, "modifier-error-surfaces-as-warning")
 		}
 	}
